@@ -345,6 +345,66 @@ theorem Coll.tryAllocateArray_measure (cfg : Cfg) {arr arrLen : Nat} {c : Coll} 
       · simp only [hemp, Bool.false_eq_true, if_false]
         exact key c h (Grow.refl c)
 
+/-- `reserve(size, capacity)`: no bucket loses a cell; when it succeeds the bucket of `size` gains at least one -/
+theorem Coll.reserveOp_grow (cfg : Cfg) (c : Coll) (size capacity : Nat) (env : List (Option Nat)) :
+    Grow c (c.reserveOp cfg size capacity env).st := by
+  unfold Coll.reserveOp
+  simp only
+  split
+  · exact Grow.refl _
+  · exact Coll.refill_grow cfg c _ _ env
+
+theorem Coll.refill_gains (cfg : Cfg) (c : Coll) (hi : c.AllIntr) (i dc : Nat) (env : List (Option Nat))
+    (hd : (c.refill cfg i dc env).out = .done) : c.cellsAt i + 1 ≤ (c.refill cfg i dc env).st.cellsAt i := by
+  have hg := Coll.reserve_grow cfg c i dc env
+  unfold Coll.refill at hd ⊢
+  split
+  · rename_i r mem hres
+    rw [hres] at hg
+    simp only [hres] at hd
+    cases hl1 : r.st.lists[i]? with
+    | none => simp [hl1] at hd
+    | some l1 =>
+      simp only [hl1] at hd ⊢
+      cases hins : l1.insert cfg mem dc with
+      | handler k => simp [hins] at hd
+      | crash => simp [hins] at hd
+      | ok l2 =>
+        simp only
+        have hi1 := hg.intr hi l1 (List.mem_of_getElem? hl1)
+        have hlen := (AnyList.insert_len cfg hi1 hins).1
+        -- an accepted insert adds at least one cell (zero cells is the undefined case of the code: crash)
+        have hk : 0 < dc / l1.nodeSize := by
+          rcases Nat.eq_zero_or_pos (dc / l1.nodeSize) with h0 | h0
+          · exfalso
+            cases l1 with
+            | small sl => exact absurd rfl (hi1 sl.P)
+            | free fl => simp [AnyList.insert, FreeList.insert, FreeList.insertImpl, AnyList.nodeSize] at hins h0; simp [h0] at hins
+            | ord ol => simp [AnyList.insert, OrdList.insert, OrdList.insertImpl, AnyList.nodeSize] at hins h0; simp [h0] at hins
+          · exact h0
+        rw [Coll.cellsAt_setList r.st hl1, if_pos rfl, hlen]
+        have := hg.cells hi i
+        rw [Coll.cellsAt_eq r.st hl1] at this
+        omega
+  · rename_i r hres
+    simp only [hres] at hd
+    have := Coll.reserve_ne_ok cfg c i dc env
+    -- without a reserved block `reserve_memory` did not finish: its outcome is not `done`
+    unfold Coll.reserve at hres
+    split at hres
+    · simp only [Prod.mk.injEq] at hres; rw [← hres.1] at hd; simp at hd
+    · split at hres
+      · simp at hres
+      · split at hres
+        · simp only [Prod.mk.injEq] at hres; rw [← hres.1] at hd; simp at hd
+        · split at hres
+          · simp only [Prod.mk.injEq] at hres; rw [← hres.1] at hd; simp at hd
+          · simp only [Prod.mk.injEq] at hres; rw [← hres.1] at hd; simp at hd
+          · simp only at hres
+            split at hres
+            · simp at hres
+            · simp only [Prod.mk.injEq] at hres; rw [← hres.1] at hd; simp at hd
+
 /-! ### histories -/
 
 theorem GCollA.step_measure (cfg : Cfg) (e : EnvS) {arr arrLen : Nat} (g : GCollA) (k : Nat) (op : COpA) (hi : g.c.AllIntr)
@@ -352,6 +412,9 @@ theorem GCollA.step_measure (cfg : Cfg) (e : EnvS) {arr arrLen : Nat} (g : GColl
     (g.step cfg e k op).1.c.AllIntr ∧ g.c.measure g.live j ≤ (g.step cfg e k op).1.c.measure (g.step cfg e k op).1.live j := by
   unfold GCollA.step at hb ⊢
   cases op with
+  | reserve size capacity =>
+    have hg := Coll.reserveOp_grow cfg g.c size capacity [e k]
+    exact ⟨hg.intr hi, hg.measure hi g.live j⟩
   | node op => exact GColl.step_measure cfg e ⟨g.c, g.live⟩ k op hi hI j
   | allocArray count size => exact Coll.allocateArray_measure cfg hI hi hf count size _ hb j
   | tryAllocArray count size => exact Coll.tryAllocateArray_measure cfg hI hi hf count size j
@@ -382,17 +445,18 @@ theorem GCollA.step_measure (cfg : Cfg) (e : EnvS) {arr arrLen : Nat} (g : GColl
 
 /-- **no bucket loses a cell over a history of node and array operations** -/
 theorem GCollA.run_measure (cfg : Cfg) (e : EnvS) {arr arrLen : Nat} (hf : cfg.fence ≤ 2 ^ 32) (ops : List COpA) :
-    ∀ (g : GCollA) (k : Nat), g.c.AllIntr → CInv arr arrLen g.c g.live → BlocksOk (g.run cfg e k ops).1.c.arena.used → ∀ j,
+    ∀ (g : GCollA) (k : Nat), (∀ op ∈ ops, op.Fits) → g.c.AllIntr → CInv arr arrLen g.c g.live →
+      BlocksOk (g.run cfg e k ops).1.c.arena.used → ∀ j,
       (g.run cfg e k ops).1.c.AllIntr ∧
       g.c.measure g.live j ≤ (g.run cfg e k ops).1.c.measure (g.run cfg e k ops).1.live j := by
   induction ops with
-  | nil => intro g k hi _ _ j; exact ⟨hi, Nat.le_refl _⟩
+  | nil => intro g k _ hi _ _ j; exact ⟨hi, Nat.le_refl _⟩
   | cons op ops ih =>
-    intro g k hi hI hb j
+    intro g k hfit hi hI hb j
     have hb' := hb.suffix (GCollA.run_ext cfg e ops _ _).used
-    have hstep := GCollA.step_inv cfg e g k op hI hf hb'
+    have hstep := GCollA.step_inv cfg e g k op (hfit op (by simp)) hI hf hb'
     obtain ⟨s1, s2⟩ := GCollA.step_measure cfg e g k op hi hI hf hb' j
-    obtain ⟨r1, r2⟩ := ih _ _ s1 hstep hb j
+    obtain ⟨r1, r2⟩ := ih _ _ (fun o ho => hfit o (by simp [ho])) s1 hstep hb j
     exact ⟨r1, Nat.le_trans s2 r2⟩
 
 end MemVerif.Model
